@@ -121,6 +121,34 @@ pub fn string_pool() -> Vec<&'static str> {
     ]
 }
 
+/// One string per UTF-8 lead byte (0xC2..=0xF4, 51 of them): "x", the first and the last scalar
+/// value encoded with that lead byte, "y". Together with ASCII this visits every lead-byte
+/// class of the encoding, including the singular ones (E0, ED, F0, F4).
+pub fn utf8_lead_byte_strings() -> Vec<String> {
+    let mut out = Vec::new();
+    for lead in 0xC2u32..=0xF4 {
+        let (lo, hi) = match lead {
+            0xC2..=0xDF => ((lead & 0x1F) << 6, ((lead & 0x1F) << 6) | 0x3F),
+            0xE0..=0xEF => ((lead & 0x0F) << 12, ((lead & 0x0F) << 12) | 0xFFF),
+            _ => ((lead & 0x07) << 18, ((lead & 0x07) << 18) | 0x3FFFF),
+        };
+        // clip to what the lead byte can really start: no overlong forms, no surrogates, <= 10FFFF
+        let (lo, hi) = match lead {
+            0xE0 => (0x800, hi),
+            0xED => (lo, 0xD7FF),
+            0xF0 => (0x10000, hi),
+            0xF4 => (lo, 0x10FFFF),
+            _ => (lo, hi),
+        };
+        let a = char::from_u32(lo).unwrap();
+        let b = char::from_u32(hi).unwrap();
+        let s: String = ['x', a, b, 'y'].iter().collect();
+        debug_assert!(s.as_bytes()[1] as u32 == lead);
+        out.push(s);
+    }
+    out
+}
+
 /// A few values of every kind (used where "a value of the wrong kind" is needed).
 pub fn kind_pool() -> Vec<Value> {
     let mut m = tera::Map::new();
